@@ -915,8 +915,14 @@ def write_evidence_file(prop, tier, seed, units, per_target, n_obl, n_ok, sample
     ]
     assumptions += ["__CPROVER_assume in machinery (stub contract or harness domain): " + a for a in assumes]
     assumptions += ["NOT COVERED: " + x for x in unclaimed]
+    level = "proof"
+    try:       # a property whose every target is a bounded stand-in is registered with category "other" in its claim file
+        with open(os.path.join(VERIF, "tools", "claims.d", prop + ".json")) as f:
+            level = json.load(f).get("category", "proof")
+    except (OSError, ValueError):
+        pass
     ev = {
-        "property_id": prop, "tier": tier, "seed": seed, "level": "proof",
+        "property_id": prop, "tier": tier, "seed": seed, "level": level,
         "coverage": {
             "obligations": n_obl, "discharged": n_ok,
             "checker_cmd": "cd /verif && ./check %s --tier %s   # per target: %s" %
